@@ -188,6 +188,7 @@ def run_case(case, tier):
     rig = ManagerRig(stepped=True, timecode=bool(case.get("tc")))
     try:
         sc = Scenario(rig, 0)
+        sc.vary_source = True
         if case.get("kind") == "mgr":
             sc.run(build_mgr(case))
             return judge_mgr(sc, case)
@@ -290,10 +291,11 @@ def judge(sc, c):
                         if dead and not (nw and not c["logger"][i]):
                             C["notices_for_write_failures"] = C.get("notices_for_write_failures", 0) + 1
                         n0 = named[0]
-                        if (n0["h_type"], n0["h_src_mod"], n0["h_dest_mod"]) != (c["type"], pid_p, dm):
+                        src_written = p["key"][4]      # the source field as the publisher wrote it (a relay may write anything)
+                        if (n0["h_type"], n0["h_src_mod"], n0["h_dest_mod"]) != (c["type"], src_written, dm):
                             V.append({"mech": "notice_wrong_header",
                                       "detail": f"notice for {L}: embedded (type,src,dest)=({n0['h_type']},{n0['h_src_mod']},"
-                                                f"{n0['h_dest_mod']}) original ({c['type']},{pid_p},{dm})"})
+                                                f"{n0['h_dest_mod']}) original ({c['type']},{src_written},{dm})"})
                         if len(named) > 1:
                             C["advisory_duplicate_notice"] = C.get("advisory_duplicate_notice", 0) + 1
                 if copies > 1:
